@@ -238,39 +238,50 @@ func opStrings(ops []skOp, n int) []string {
 
 // ---------- C12 ----------
 
-// extremeOK checks a reported extreme y against the true extreme x (no weight has been folded).
+// extremeOK checks a reported extreme y against the true extreme x (no weight has been folded):
+// within alpha of it, 0 when it sits in the zero bucket.
 func extremeOK(st *skState, y, x float64) bool {
-	m := st.m
-	ax := math.Abs(x)
-	if ax <= m.Min {
-		return m.Matches(y, x)
-	}
-	return y == math.Copysign(m.M.Value(m.M.Index(ax)), x)
+	return st.m.Matches(y, x)
 }
 
-// binExtremes derives the extremes a sketch must report from its bin-level content:
-// the clamped extremes when bounded stores folded weight.
-func binExtremes(md *mon.SketchModel) (mn, mx float64) {
-	m := md.Map.M
+// inBin tells whether y lies in bin (sign, index) - or is 0 when zero is set.
+func inBin(m *gen.Map, y float64, zero bool, negative bool, index int) bool {
+	if zero {
+		return y == 0
+	}
+	if y == 0 || (y < 0) != negative {
+		return false
+	}
+	return m.M.Index(math.Abs(y)) == index
+}
+
+// binExtremes derives, from the bin-level content, the bins in which the reported extremes must
+// lie: the clamped extremes when bounded stores folded weight.
+type extremeBin struct {
+	zero, negative bool
+	index          int
+}
+
+func binExtremes(md *mon.SketchModel) (mn, mx extremeBin) {
 	switch {
 	case !md.Neg.Empty():
 		i, _ := md.Neg.Max()
-		mn = -m.Value(i)
+		mn = extremeBin{negative: true, index: i}
 	case md.Zero > 0:
-		mn = 0
+		mn = extremeBin{zero: true}
 	default:
 		i, _ := md.Pos.Min()
-		mn = m.Value(i)
+		mn = extremeBin{index: i}
 	}
 	switch {
 	case !md.Pos.Empty():
 		i, _ := md.Pos.Max()
-		mx = m.Value(i)
+		mx = extremeBin{index: i}
 	case md.Zero > 0:
-		mx = 0
+		mx = extremeBin{zero: true}
 	default:
 		i, _ := md.Neg.Min()
-		mx = -m.Value(i)
+		mx = extremeBin{negative: true, index: i}
 	}
 	return
 }
@@ -330,8 +341,8 @@ func checkCoherence(c *core.Ctx, st *skState) {
 		}
 		// in every case: the representative of the extreme non-empty bin (clamped extremes when folded)
 		bmn, bmx := binExtremes(st.mdl)
-		if mn != bmn || mx != bmx {
-			c.Failf("coherence.clamped_extremes", "GetMin/MaxValue()=[%v,%v], extreme bins of the (folded) content give [%v,%v] (store %s)", mn, mx, bmn, bmx, st.spec)
+		if !inBin(m, mn, bmn.zero, bmn.negative, bmn.index) || !inBin(m, mx, bmx.zero, bmx.negative, bmx.index) {
+			c.Failf("coherence.clamped_extremes", "GetMin/MaxValue()=[%v,%v] do not lie in the extreme non-empty bins of the (folded) content: %+v / %+v (store %s)", mn, mx, bmn, bmx, st.spec)
 		}
 	}
 	// quantiles: monotone, within [min,max], batch == singles
